@@ -102,6 +102,9 @@ package base
 //@   ensures gCompN == old(gCompN) + 1 && gCompRecv == upd(old(gCompRecv), old(gCompN), dynptr(this))
 //@   modifies gCompN, gCompRecv, gAdded
 
+// a context in the pool has been reset: it carries no arguments of a previous request
+//@ poolinv "*core/base.EntryContext": it.Input != nil && len(it.Input.Args) == 0
+
 //@ func (sc *SlotChain) Entry(ctx) r
 //@   props C01, C16
 //@   requires sc != nil && ctx != nil && ctx.RuleCheckResult != nil
@@ -188,7 +191,7 @@ package base
 //@ func (sc *SlotChain) GetPooledContext() ctx
 //@   assumed
 //@   ensures ctx != nil && allocated(ctx) && ctx.Input != nil && allocated(ctx.Input) && ctx.RuleCheckResult != nil && allocated(ctx.RuleCheckResult) && !blocked(ctx.RuleCheckResult)
-//@   ensures ctx.err == nil && ctx.Resource == nil && dynptr(ctx.StatNode) == 0 && ctx.startTime == clock_ms
+//@   ensures ctx.err == nil && ctx.Resource == nil && dynptr(ctx.StatNode) == 0 && ctx.startTime == clock_ms && len(ctx.Input.Args) == 0
 //@   modifies all(EntryContext.startTime)
 
 //@ func NewBlockErrorFromDeepCopy(from) r
